@@ -9,7 +9,7 @@ func Spec() *run.Spec {
 		ID: "C16", Level: "exploration",
 		Rule: "A case is one generated element set (points — index list identity/permuted/shared/with unreferenced vertices —, line strip, independent segments, triangles, boxes or a mixture; 1–400 elements; " +
 			"layouts uniform/clustered/coincident/overlapping/collinear/coplanar/integer lattice/welded grid; ≈12 % of the scenes with special coordinates: scene translated so that a vertex / bounds min / bounds max is exactly 0 on 1–3 axes, " +
-			"zero-extent elements exactly at the world origin (first, last, inside, several; ±0) and at {-1,0,1}³, queried at the origin, with r = 0.5 and by axis rays through the origin; depth 0…6 or automatic; every public constructor path) " +
+			"zero-extent elements exactly at the world origin (first, last, inside, several; ±0) and at {-1,0,1}³, queried at the origin, with r = 0.5 and by axis rays through the origin; depth 0…6 or automatic; every public constructor path; signed zeros are ordinary values: axis/diagonal directions obtained by flipping the opposite vector, aimed directions as (o-t)·(-1/|o-t|), ±0 in origins, query points, element coordinates and box extents; denormal direction components; max up to +Inf) " +
 			"with 20 query positions (ClosestPoint, ElementsContainingPoint, ElementsWithinRange) and 20 rays (ElementsIntersectingRay, TraverseIntersectingRay, " +
 			"nearest hit through the narrowing traversal), resp. one triangle mesh with 20 rays through BVHNode/HitList/rendering.Mesh/rendering.Tree, the incoming hit record being a workload dimension " +
 			"(fresh per call; one record reused over all rays of the case, in random order or nearest hit first; literal with Distance 0; bare &HitRecord{} where the entry point supports it; Distance pre-set tiny / half the true hit / huge / NaN / +Inf / negative): the answer must not depend on it. " +
@@ -40,6 +40,8 @@ func Spec() *run.Spec {
 			"scenes_with_special_coordinates": 500, "scenes_with_zero_extent_element_at_world_origin": 150,
 			"scenes_with_zero_extent_element_at_world_origin_as_element_0": 80, "special_coordinate_ingredients": 12,
 			"bvh_record_kinds": 11, "bvh_record_modes": 4, "bvh_calls_with_record_holding_a_nearer_earlier_hit": 5000,
+			"rays_with_negative_zero_direction_component": 10000, "rays_with_denormal_direction_component": 1000,
+			"bvh_rays_with_negative_zero_direction_component": 2000, "bvh_rays_with_denormal_direction_component": 200,
 		},
 		Phases: []run.Phase{
 			{Name: "octree", Cases: func(tier string) int {
